@@ -74,6 +74,23 @@ Theorem C11_no_loss_below_head : forall (hash_hdr : header -> N) (root : list N 
 Proof. exact no_loss_below_head. Qed.
 Print Assumptions C11_no_loss_below_head.
 
+(** the predicate the judge evaluates on outcomes ([outcome_ok_b]: restart succeeded, restarted
+    ledger consistent in itself and equal to the uncrashed one at n or n+1, continuation
+    reached the end with the uncrashed observations), evaluated on the MODEL's own experiment
+    with the model's own uncrashed references, is [Good S] -- for every pre-history, block,
+    continuation and unit set whose universe reaches the final height *)
+Theorem C11_judge_predicate : forall (hash_hdr : header -> N) (root : list N -> N) (sroot : N -> N -> N),
+  (forall a b, hash_hdr a = hash_hdr b -> a = b) ->
+  forall U pre b post (S : uset),
+  let all := pre ++ b :: post in
+  wf_blocks all -> (length all <= u_kh U)%nat ->
+  exists o, experiment hash_hdr root sroot U pre b post S = Some o /\
+            outcome_ok_b hash_hdr root (reference hash_hdr root sroot U all (length pre))
+                         (reference hash_hdr root sroot U all (Datatypes.S (length pre)))
+                         (reference hash_hdr root sroot U all (length all)) o = Good S.
+Proof. exact experiment_judge. Qed.
+Print Assumptions C11_judge_predicate.
+
 Theorem C11_ideals : forall S, ideal_b S = true <-> ideal S.
 Proof. exact ideal_b_spec. Qed.
 Print Assumptions C11_ideals.
